@@ -17,13 +17,22 @@ for name in $names; do
   start=$(date +%s)
   out=$(VERIF_SEED=0 ./check $id quick 2>&1); rc=$?
   end=$(date +%s)
+  other=""; 
+  if [ $rc -ne 1 ] && [ -f $d/also_checks ]; then
+    for oid in $(cat $d/also_checks); do
+      out2=$(VERIF_SEED=0 ./check $oid quick 2>&1); rc2=$?
+      if [ $rc2 -eq 1 ]; then other=$oid; out="$out2"; break; fi
+    done
+  fi
   git -C /repo checkout -q -- .
-  sig=$(echo "$out" | grep -E '^violation: ' | head -1 | sed 's/^violation: //' | cut -d' ' -f1 | sed 's/:$//')
-  nviol=$(echo "$out" | grep -c '^VIOLATION ')
-  python3 - "$name" "$p" "$rc" "$sig" "$nviol" "$((end-start))" > $d/result.json <<'PY'
+  sig=$(echo "$out" | grep -a -E '^violation: ' | head -1 | sed 's/^violation: //' | cut -d' ' -f1 | sed 's/:$//')
+  nviol=$(echo "$out" | grep -a -c '^VIOLATION ')
+  python3 - "$name" "$p" "$rc" "$sig" "$nviol" "$((end-start))" "$other" > $d/result.json <<'PY'
 import json,sys
-name,p,rc,sig,n,secs=sys.argv[1:]
-print(json.dumps({"mutant":name,"patch":p,"applies":True,"check":name.split('-')[0],"tier":"quick","seed":0,"exit_code":int(rc),"violations":int(n),"first_signature":sig,"wall_seconds":int(secs),"caught":int(rc)==1 and int(n)>0},indent=1))
+name,p,rc,sig,n,secs,other=sys.argv[1:]
+d={"mutant":name,"patch":p,"applies":True,"check":name.split('-')[0],"tier":"quick","seed":0,"exit_code":int(rc),"violations":int(n),"first_signature":sig,"wall_seconds":int(secs),"caught":(int(rc)==1 or bool(other)) and int(n)>0}
+if other: d["caught_by_other_check"]=other
+print(json.dumps(d,indent=1))
 PY
   echo "$name: rc=$rc violations=$nviol sig=$sig (${secs:-$((end-start))}s)"
 done
